@@ -79,9 +79,9 @@ def h_subset(env, feature="tomo_id", values=(2.0, 1.0), index="default", reset_i
     _same_rows(env, "input_untouched", m.df, rows)
 
 
-def h_remove_and_split(env, feature="class", index="default"):
+def h_remove_and_split(env, feature="class", index="default", dom=(1, 2)):
     cm = env.module("cryomotl")
-    rows = _rows(env, 3, "a", {feature: [1, 2]})
+    rows = _rows(env, 3, "a", {feature: list(dom)})
     m = _motl(env, cm, rows, index)
     parts = m.split_by_feature(feature)
     uniq = []
@@ -89,15 +89,24 @@ def h_remove_and_split(env, feature="class", index="default"):
         if r[feature] not in uniq:
             uniq.append(r[feature])
     env.check("split_number_of_parts", env.true() if len(parts) == len(uniq) else _false(env))
-    for p, v in zip(parts, uniq):
-        _same_rows(env, "split_part_%d" % int(v), p.df, [r for r in rows if r[feature] == v])
+    # a partition: one part per occurring value, in whatever order; each part = the rows with that value, original order
+    seen = []
+    for k, p in enumerate(parts):
+        pv = sorted(set(float(v) for v in p.df[feature]))
+        env.check("split_part_%d_holds_one_value" % k, env.true() if len(pv) == 1 and pv[0] in uniq and pv[0] not in seen else _false(env))
+        if len(pv) != 1:
+            continue
+        seen.append(pv[0])
+        _same_rows(env, "split_part_of_value_%s" % str(pv[0]).replace(".", "_"), p.df, [r for r in rows if r[feature] == pv[0]])
+    env.check("split_covers_every_value", env.true() if sorted(seen) == sorted(uniq) else _false(env))
     m2 = _motl(env, cm, rows, index)
-    m2.remove_feature(feature, 1.0)
-    _same_rows(env, "remove", m2.df, [r for r in rows if r[feature] != 1.0])
-    sel = _motl(env, cm, rows, index).get_motl_subset(1.0, feature_id=feature)
+    v0 = float(dom[0])
+    m2.remove_feature(feature, v0)
+    _same_rows(env, "remove", m2.df, [r for r in rows if r[feature] != v0])
+    sel = _motl(env, cm, rows, index).get_motl_subset(v0, feature_id=feature)
     env.check("remove_and_select_complementary", env.true() if m2.df.shape[0] + sel.df.shape[0] == len(rows) else _false(env))
     m3 = _motl(env, cm, rows, index)
-    m3.remove_feature(feature, [1.0, 2.0])
+    m3.remove_feature(feature, [float(v) for v in dom])
     env.check("remove_all_values_leaves_empty_20_fields", env.true() if (m3.df.shape[0] == 0 and m3.df.shape[1] == 20) else _false(env))
 
 
@@ -189,12 +198,15 @@ def h_merge_and_renumber(env, index="default", sizes=(2, 2)):
         _same_rows(env, "input_%d_untouched" % li, m.df, l)
 
 
-def h_merge_and_drop_duplicates(env):
+def h_merge_and_drop_duplicates(env, obj_b=1):
     cm = env.module("cryomotl")
     r1 = _rows(env, 2, "a", {"subtomo_id": [1, 2], "score": [0.25, 0.75], "tomo_id": [1, 3]})
     r2 = _rows(env, 1, "b", {"subtomo_id": [1, 2], "score": [0.5], "tomo_id": [2]}, base_rid=200)
-    for r in r1 + r2:
+    for r in r1:
         r["object_id"] = 1.0
+    for r in r2:
+        r["object_id"] = float(obj_b)
+    r1[-1]["object_id"] = 2.0
     out = cm.Motl.merge_and_drop_duplicates([_motl(env, cm, r1), _motl(env, cm, r2)])
     best = _best(r1 + r2, False)
     df = out.df
@@ -207,6 +219,14 @@ def h_merge_and_drop_duplicates(env):
             env.check("kept_row_is_best_scoring_%d" % i, env.true() if float(a["score"]) == best[k]["score"] else _false(env))
             orig = [r for r in r1 + r2 if r["geom1"] == float(a["geom1"])]
             env.check("other_fields_unchanged_%d" % i, env.and_(*[env.eq(a[c], orig[0][c]) for c in COLS if c != "object_id"]) if orig else _false(env))
+    # object numbers of survivors: never shared between rows that came from different inputs, grouping inside an input kept
+    surv = [(float(df["geom1"].iloc[i]), float(df["object_id"].iloc[i])) for i in range(df.shape[0])]
+    src = {r["geom1"]: (0, r["object_id"]) for r in r1}
+    src.update({r["geom1"]: (1, r["object_id"]) for r in r2})
+    okc = all(not (oa == ob and src[ga][0] != src[gb][0]) for (ga, oa) in surv for (gb, ob) in surv if ga in src and gb in src)
+    env.check("objects_do_not_collide_across_inputs", env.true() if okc else _false(env))
+    okg = all((oa == ob) == (src[ga][1] == src[gb][1]) for (ga, oa) in surv for (gb, ob) in surv if ga in src and gb in src and src[ga][0] == src[gb][0])
+    env.check("grouping_kept_within_inputs", env.true() if okg else _false(env))
 
 
 def h_renumber_objects(env, index="default", start=1, n=3, odom=(1, 2, 5)):
@@ -402,6 +422,7 @@ def jobs(tier, seed):
         ("h_subset", {"feature": "tomo_id", "values": [3.0], "index": "gaps", "reset_index": False}),
         ("h_remove_and_split", {"feature": "class"}),
         ("h_remove_and_split", {"feature": "class", "index": "gaps"}),
+        ("h_remove_and_split", {"feature": "geom2", "dom": [2.0, 2.5, 0.75]}), ("h_remove_and_split", {"feature": "score", "dom": [0.25, 0.5], "index": "gaps"}),
         ("h_intersection", {}),
         ("h_intersection", {"index": "gaps"}),
         ("h_drop_duplicates", {"ascending": False}),
@@ -409,7 +430,7 @@ def jobs(tier, seed):
         ("h_merge_and_renumber", {}),
         ("h_merge_and_renumber", {"index": "gaps"}),
         ("h_merge_and_renumber", {"sizes": [1, 2, 1]}),
-        ("h_merge_and_drop_duplicates", {}),
+        ("h_merge_and_drop_duplicates", {}), ("h_merge_and_drop_duplicates", {"obj_b": 0}),
         ("h_renumber_objects", {"n": 4, "odom": [1, 2]}),
         ("h_subset", {"feature": "subtomo_id", "values": [200002.0], "domain": [200001, 200002, 7]}),
         ("h_subset", {"feature": "score", "values": [0.75], "domain": [0.75, 0.750001, 0.5]}),
